@@ -261,7 +261,7 @@ func main() {
 	}
 	results := make([]wres, *workers)
 	var wg sync.WaitGroup
-	hard := time.Duration(budget.Secs)*time.Second + 20*time.Minute
+	hard := time.Duration(budget.Secs)*time.Second + 15*time.Minute
 	for k := 0; k < *workers; k++ {
 		wg.Add(1)
 		go func(k int) {
@@ -303,29 +303,43 @@ func main() {
 	byKey := map[string]*core.FoundViolation{}
 	var keys []string
 	stopped := map[string]int{}
+	hangFrames := map[string]bool{}
 	for k, r := range results {
 		if r.hang != nil {
-			// a run exceeded the wall-clock watchdog: repeat it alone with five
-			// times the limit before calling it a hang
+			if f := fmt.Sprint(r.hang["frame"]); hangFrames[f] {
+				continue // same hang site already handled
+			} else {
+				hangFrames[f] = true
+			}
+			// a run exceeded the wall-clock watchdog: repeat it alone in a fresh
+			// process with five times the limit before calling it a hang
 			run := int(r.hang["hang_run"].(float64))
-			lim := time.Duration(r.hang["timeout_s"].(float64)) * 5 * time.Second
-			out := filepath.Join(work, fmt.Sprintf("hang%d.json", k))
-			env := []string{"VSIM_OUT=" + out, "VSIM_PROP=" + *prop, "VSIM_TIER=" + *tier, "VSIM_SEED=" + fmt.Sprint(seed),
-				"VSIM_ONLY_RUN=" + fmt.Sprint(run), "VSIM_RUNS=1", "VSIM_SECS=0", "VSIM_WORKERS=1"}
-			code, _ := runWorker(bin, env, lim)
-			if code == -2 || code == 3 {
-				rf := &core.ReplayFile{Property: *prop, Tier: *tier, Seed: core.RunSeed(seed, *prop, run), Run: run, Harness: core.HarnessVersion,
-					Violation: core.Violation{Class: "hang", Msg: fmt.Sprintf("run %d did not finish within %v (confirmed alone in a fresh process); stacks:\n%v", run, lim, r.hang["stacks"])},
-					Comment:   "replay with: VERIF_SEED=" + fmt.Sprint(seed) + " check -prop " + *prop + " (run index above)"}
-				path := writeReplay(rf, "hang")
+			limS := int(r.hang["timeout_s"].(float64)) * 5
+			hseed, _ := strconv.ParseUint(fmt.Sprint(r.hang["seed"]), 10, 64)
+			frame := fmt.Sprint(r.hang["frame"])
+			rf := &core.ReplayFile{Property: *prop, Tier: *tier, Seed: hseed, Run: run, Harness: core.HarnessVersion,
+				Violation: core.Violation{Class: "hang", Attrs: map[string]string{"frame": frame},
+					Msg: fmt.Sprintf("run did not finish within %ds (confirmed alone in a fresh process); innermost library frame %s; stacks:\n%v", limS, frame, r.hang["stacks"])}}
+			if tp, ok := r.hang["tape"].([]any); ok {
+				for _, v := range tp {
+					rf.Tape = append(rf.Tape, uint64(v.(float64)))
+				}
+			} else {
+				rf.FromSeed = true
+			}
+			path := writeReplay(rf, "hang")
+			switch confirmHang(bin, path, limS) {
+			case "hang":
 				if kf := matchKnown(ks, *prop, &rf.Violation); kf != nil {
 					knownSeen[kf.ID] = true
 				} else {
 					violations++
 					violLines = append(violLines, fmt.Sprintf("VIOLATION property=%s replay=%s", *prop, path))
+					fmt.Printf("violation class=hang frame=%s (run %d)\n", frame, run)
 				}
-			} else {
+			default:
 				total.SlowRuns++
+				os.Remove(path)
 			}
 			continue
 		}
@@ -536,6 +550,22 @@ func main() {
 	}
 }
 
+// confirmHang replays a file with the hang watchdog armed; it returns "hang"
+// if the replay again fails to finish, otherwise "finished".
+func confirmHang(bin, path string, limS int) string {
+	out := path + ".out"
+	defer os.Remove(out)
+	defer os.Remove(out + ".hang")
+	code, _ := runWorker(bin, []string{"VSIM_OUT=" + out, "VSIM_REPLAY=" + path, "VSIM_TIMEOUT_S=" + fmt.Sprint(limS)}, time.Duration(limS+60)*time.Second)
+	if _, err := os.Stat(out); err == nil {
+		return "finished"
+	}
+	if code == 3 || code == -2 {
+		return "hang"
+	}
+	return "finished"
+}
+
 func firstLines(s string, n int) string {
 	lines := strings.Split(s, "\n")
 	if len(lines) > n {
@@ -628,7 +658,13 @@ func doReplay(path string) {
 		fatal2("%v", err)
 	}
 	bin := build(rf.Property, overlayProps[rf.Property])
-	if len(rf.Tape) == 0 && rf.Corner == "" && (rf.Violation.Class == "hang" || rf.Violation.Class == "process-crash") {
+	if rf.Violation.Class == "hang" {
+		if confirmHang(bin, path, 120) == "hang" {
+			fmt.Printf("%s replay %s: run does not finish within 120s (hang reproduced)\nVIOLATION property=%s replay=%s\n", rf.Property, path, rf.Property, path)
+			os.Exit(1)
+		}
+	}
+	if len(rf.Tape) == 0 && rf.Corner == "" && !rf.FromSeed && rf.Violation.Class == "process-crash" {
 		fmt.Printf("%s replay: class %s has no tape; %s\n", rf.Property, rf.Violation.Class, rf.Comment)
 		os.Exit(2)
 	}
